@@ -21,8 +21,8 @@ theorem headers_shape : ∀ (hs : List (Bytes × Bytes)), (∀ kv ∈ hs, LineOK
     | zero => simp at hf
     | succ f =>
       obtain ⟨k, v⟩ := kv
-      obtain ⟨hk, hv, hu1, hu2, hstart⟩ := hwf (k, v) (by simp)
-      simp only at hk hv hu1 hu2 hstart
+      obtain ⟨hk, hv, hu1, hu2, hstart, hnm⟩ := hwf (k, v) (by simp)
+      simp only at hk hv hu1 hu2 hstart hnm
       have ih' := ih (fun x hx => hwf x (by simp [hx])) f rest
       have e1 : encodeHeaders ((k, v) :: hs) ++ [CR, LF] ++ rest
           = k ++ COLON :: (SP :: (v ++ CR :: (LF :: (encodeHeaders hs ++ [CR, LF] ++ rest)))) := by
@@ -53,7 +53,7 @@ theorem headers_shape : ∀ (hs : List (Bytes × Bytes)), (∀ kv ∈ hs, LineOK
       have c2 : consume [CR, LF] (CR :: LF :: (encodeHeaders hs ++ [CR, LF] ++ rest))
           = some (encodeHeaders hs ++ [CR, LF] ++ rest) := consume_append [CR, LF] _
       rw [headers]
-      simp only [hnc, hrk, c1, hrv, hu1, hu2, Bool.and_self, Bool.not_true, Bool.false_eq_true, if_false, c2]
+      simp only [hnc, hrk, c1, hrv, hu1, hu2, hnm, Bool.and_self, Bool.not_true, Bool.false_eq_true, if_false, c2]
       simp only [List.foldl_cons, stepH]
       cases hsi : stdIndex k with
       | some i => simp only; exact ih' _ _ (by simp at hf; omega)
